@@ -293,6 +293,33 @@ impl<const N: usize> Rig<N> {
         (enc, idxs)
     }
 
+    /// C03 / C04 (kind 163): a submission of more buffers than the queue has descriptors (also 2^16 and more, where a
+    /// 16-bit count would wrap) is refused with QueueFull, shares nothing and changes nothing, direct or indirect.
+    /// ins: [buffers; queue size; class; is QueueFull; shares; device-visible and private state unchanged]
+    pub fn add_oversized(&mut self, ctx: &mut Ctx, n: usize) {
+        let data = vec![0x5au8; n];
+        let snap_before = if N <= 64 { Some(self.q.verif_snapshot()) } else { None };
+        let vis_before = (hal::dev_read(self.a.desc, 16 * N).ok(), hal::dev_read(self.a.drv, 4 + 2 * N + 2).ok());
+        let mark = hal::log_len();
+        let r = {
+            let n_in = if n % 2 == 0 { n } else { n - 1 };
+            let in_refs: Vec<&[u8]> = data[..n_in].chunks(1).collect();
+            let mut tail = vec![0u8; n - n_in];
+            let mut out_refs: Vec<&mut [u8]> = tail.chunks_mut(1).collect();
+            let q = &mut self.q;
+            catch_unwind(AssertUnwindSafe(|| unsafe { q.add(&in_refs, &mut out_refs) }))
+        };
+        let evs = hal::log_since(mark);
+        let shares = evs.iter().filter(|e| matches!(e, Ev::Share { .. })).count();
+        let same = snap_before.map(|sb| sb == self.q.verif_snapshot()).unwrap_or(true)
+            && vis_before == (hal::dev_read(self.a.desc, 16 * N).ok(), hal::dev_read(self.a.drv, 4 + 2 * N + 2).ok());
+        let (class, full) = match &r { Ok(Ok(_)) => (0u128, 0u128), Ok(Err(virtio_drivers::Error::QueueFull)) => (1, 1), Ok(Err(_)) => (1, 0), Err(_) => (2, 0) };
+        ctx.tr.line(163, &[n as u128, N as u128, class, full, shares as u128, same as u128], &[1]);
+        ctx.tr.note("add_oversized");
+        // a submission that was wrongly accepted has changed the queue under the feet of the model: end this history
+        if class != 1 { self.subs.clear(); }
+    }
+
     /// add with `n_in` readable and `n_out` writable buffers of the given lengths
     pub fn add(&mut self, ctx: &mut Ctx, lens_in: &[usize], lens_out: &[usize]) -> Option<u16> {
         let mut ins: Vec<Box<[u8]>> = lens_in.iter().map(|l| ctx.rng.bytes(*l).into_boxed_slice()).collect();
@@ -554,8 +581,12 @@ pub fn history<const N: usize>(ctx: &mut Ctx, flags: u8, start: u16, nops: usize
                 let tok = rig.subs[k].token;
                 if Some(tok) != right { rig.pop(ctx, k, tok); }
             }
-        } else if r < 96 {
+        } else if r < 95 {
             rig.queries(ctx);
+        } else if r < 96 {
+            // more buffers than descriptors, with whatever is outstanding at this point
+            let n = match ctx.rng.below(4) { 0 => N + 1, 1 => N + 2, 2 => 2 * N + 1, _ => if N <= 64 { 65536 + ctx.rng.below(N as u64 + 1) as usize } else { N + 1 } };
+            rig.add_oversized(ctx, n);
         } else if r < 98 {
             let en = ctx.rng.chance(1, 2); rig.set_dev_notify(ctx, en);
         } else {
@@ -568,6 +599,7 @@ pub fn history<const N: usize>(ctx: &mut Ctx, flags: u8, start: u16, nops: usize
     }
     rig.snapshots(ctx);
     rig.queries(ctx);
+    for n in [N + 1, 65536, 65536 + N.min(3)] { if N <= 64 || n == N + 1 { rig.add_oversized(ctx, n); } }
     // drain: complete and pop everything, then the free list must be whole again
     while !rig.subs.is_empty() {
         let cands: Vec<usize> = (0..rig.subs.len()).filter(|k| !rig.subs[*k].completed).collect();
